@@ -108,7 +108,11 @@ type Group struct {
 var absent = Alt{Class: "absent", Coarse: 0}
 
 func envURL(class string, coarse int, lit, host, path string) Alt {
-	return Alt{Class: class, Coarse: coarse, Set: true, Env: lit, HasHost: true, HasPath: true, Host: host, Path: path}
+	a := Alt{Class: class, Coarse: coarse, Set: true, Env: lit, HasHost: true, HasPath: true, Host: host, Path: path}
+	if class != "valid" {
+		a.Reduce = []int{1} // the plain host-only URL is the simpler valid value
+	}
+	return a
 }
 
 func envBad(class string, coarse int, lit string) Alt {
